@@ -145,6 +145,16 @@ def corr(ctx, drv):
         ctx.count("stages_" + kind)
     for k in range(16 if thorough else 6):
         composed(ctx, drv, rng, k)
+    # unravel_index (its loop over dimensions is not translated): exhaustive against (idx // w, idx % w), the form the
+    # generated evaluate_one and the model use
+    msgs = []
+    for h_ in range(1, 8 if thorough else 6):
+        for w_ in range(1, 10 if thorough else 7):
+            for idx in range(h_ * w_):
+                got = tuple(int(v) for v in bc.unravel_index(idx, (h_, w_)))
+                if got != (idx // w_, idx % w_):
+                    msgs.append(f"unravel_index({idx}, {(h_, w_)}) = {got}, expected {(idx // w_, idx % w_)}")
+    ctx.corr_case("unravel_index", {"max_shape": [7, 9] if thorough else [5, 6]}, msgs[:3], hkey=("unravel",))
 
 
 def composed(ctx, drv, rng, k):
